@@ -12,11 +12,9 @@ from .. import hailenv
 from ..framework import Prop
 from . import hailvalues as hv
 
-PRIM_NONE_OK = ('i32', 'i64', 'bool', 'str')      # classes whose `_convert_to_json` is the identity: None survives inside a dict
-
-# known defect classes, keyed by their canonical minimal witness (see known_findings.json)
+# known defect classes, keyed by their canonical minimal witness (see known_findings.json).  The class 'dict-missing-entry'
+# (tdict converted keys/values without the None check) was repaired by /repo commit 1824f18d5 and is a plain violation again.
 CLASS_WITNESS = {
-    'dict-missing-entry': {'type': ['dict', ['str'], ['f64']], 'value': ['dict', [['', None]]]},
     'ndarray-non-numeric': {'type': ['ndarray', ['str'], 0], 'value': ['nd', [], [''], 'C']},
 }
 
@@ -84,8 +82,6 @@ def strip_known(t, v, cls):
     if k == 'dict':
         out, seen = [], set()
         for a, b in v[1]:
-            if cls == 'dict-missing-entry' and ((a is None and t[1][0] not in PRIM_NONE_OK) or (b is None and t[2][0] not in PRIM_NONE_OK)):
-                continue
             a2 = strip_known(t[1], a, cls)
             key = hv.canon_case(t[1], a2)
             if key not in seen:
@@ -117,10 +113,10 @@ class C32(Prop):
     technique = ('Lean 4 theorem by mutual structural induction over the type about an executable model of _convert_to_json / '
                  '_convert_from_json of every type class + differential correspondence with the real methods through json.dumps/loads')
     level_text = ('Proved for every type and every well-typed value with missing values at every level, NaN/±inf, calls, loci, intervals, '
-                  'sets, dicts, tuples, nested structs, numeric n-d arrays: from_json(to_json(v)) = v — under the explicit hypothesis that '
-                  'no dict holds a missing key/value of a non-primitive type and no n-d array has a non-numeric element type; the full '
-                  'statement is refuted on concrete witnesses for exactly those two classes (tdict converts keys and values without the '
-                  'None check; ndarray JSON is numeric-only).')
+                  'sets, dicts (missing keys and values included), tuples, nested structs, numeric n-d arrays: from_json(to_json(v)) = v — '
+                  'under the explicit hypothesis that no n-d array has a non-numeric element type; the full statement is refuted on a '
+                  'concrete witness for exactly that class (ndarray JSON is numeric-only). The former tdict defect (keys/values converted '
+                  'without the None check) is repaired in /repo (1824f18d5); its old behaviour is kept as dictEntryToJsonOld.')
     level_note = ('Trusted: the JSON text layer (json.dumps/json.loads, repr/float of finite floats) is taken as the identity on JSON '
                   'trees; Python set/dict construction is modelled on pairwise-distinct elements only; the model is tied to the real '
                   'methods by differential runs only.')
